@@ -198,6 +198,8 @@ def obligations():
         if ok_fw:
             call = calls[0]
             for k, arg in enumerate(call.args):
+                if k == 0 and params and params[0] == 'wrapper':
+                    continue            # the wrapper OBJECT built by solve, under whatever local name; the options follow
                 if not (k < len(params) and isinstance(arg, ast.Name) and arg.id == params[k]):
                     ok_fw, detail_fw = False, 'argument %d is %r for parameter %r' % (k, _src(arg), params[k] if k < len(params) else None)
                     break
